@@ -80,6 +80,7 @@ func cmdRun(args []string) {
 	maxPaths := fs.Int("maxpaths", 0, "stop after n paths")
 	params := fs.String("params", "", "k=v,k=v")
 	stubs := fs.String("stubs", "", "target=pkg.Func,... (~ = module path)")
+	solver := fs.String("solver", "", "z3-new|z3|cvc5")
 	fs.Parse(args)
 	vd, rd := verifDir(), repoDir()
 	ov := baseOverlay(vd, rd)
@@ -102,6 +103,9 @@ func cmdRun(args []string) {
 	}
 	fmt.Fprintf(os.Stderr, "loaded in %.1fs\n", time.Since(t0).Seconds())
 	P.tier = *tier
+	if *solver != "" {
+		P.solverKind = *solver
+	}
 	P.verbose = *verbose
 	P.debug = *debug
 	P.smtLog = *smtlog
